@@ -116,6 +116,7 @@ Inductive ev :=
 | EForget (a : addr) (c : cid) (hit : bool) (* loop processed a close notification; hit: an entry was removed *)
 | ERead (c : cid) (p : pkt) (fresh : bool) (off len : N) (* Read returned bytes [off, off+len) of p; fresh: p was taken from readCh by this call *)
 | EEof (c : cid)                          (* Read notified the loop and returned io.EOF *)
+| EIdle (c : cid)                         (* the idle timer of c fired (always followed by EEof c) *)
 | EDeadline (c : cid)                     (* Read returned os.ErrDeadlineExceeded *)
 | EWrite (c : cid) (w : nat) (a : addr)   (* Write sent payload w to address a *)
 | ERet (c : cid)                          (* the handler returned (Close starts) *)
@@ -334,9 +335,9 @@ Definition exec (g : cfg) (s : state) (t : step) : option state :=
           | Some _ => None
           | None =>
               if read_eof_notifies g then
-                if length (closeCh s) <? cap_close g then Some (with_conn_note s c k [EEof c])
-                else if read_notify_blocking g then None else Some (with_conn s c k [EEof c])
-              else Some (with_conn s c k [EEof c])
+                if length (closeCh s) <? cap_close g then Some (with_conn_note s c k [EIdle c; EEof c])
+                else if read_notify_blocking g then None else Some (with_conn s c k [EIdle c; EEof c])
+              else Some (with_conn s c k [EIdle c; EEof c])
           end
       | None => None
       end
@@ -489,7 +490,7 @@ Fixpoint causal_go (cs : list cid) (ps : list pkt) (tr : list ev) : bool :=
   | e :: r =>
       match e with
       | ERead c p _ _ _ => nat_in c cs && existsb (pkt_eqb p) ps && causal_go cs ps r
-      | EEof c | EDeadline c | ERet c | EClosed c | EWrite c _ _ => nat_in c cs && causal_go cs ps r
+      | EEof c | EIdle c | EDeadline c | ERet c | EClosed c | EWrite c _ _ => nat_in c cs && causal_go cs ps r
       | ENew c _ => negb (nat_in c cs) && causal_go (c :: cs) ps r
       | EArr p => causal_go cs (p :: ps) r
       | _ => causal_go cs ps r
@@ -549,8 +550,23 @@ Fixpoint fresh_go (nw : list (cid * addr)) (es : list cid) (tr : list ev) : bool
   end.
 Definition fresh_ok (tr : list ev) : bool := fresh_go [] [] tr.
 
+(* no end of stream without a cause: Read returns io.EOF only when the idle timer fired in that
+   very call or after Close has begun (rs: associations whose handler has returned / called Close) *)
+Fixpoint eofc_go (rs : list cid) (idle : option cid) (tr : list ev) : bool :=
+  match tr with
+  | [] => true
+  | e :: r =>
+      match e with
+      | EEof c => ((match idle with Some c' => Nat.eqb c' c | None => false end) || nat_in c rs) && eofc_go rs None r
+      | EIdle c => eofc_go rs (Some c) r
+      | ERet c => eofc_go (c :: rs) None r
+      | _ => eofc_go rs None r
+      end
+  end.
+Definition eofc_ok (tr : list ev) : bool := eofc_go [] None tr.
+
 Definition accepts (g : cfg) (tr : list ev) : bool :=
-  own_ok tr && order_ok tr && nodup_ok tr && grouped_ok tr && causal_ok tr && chunks_ok tr &&
+  own_ok tr && order_ok tr && nodup_ok tr && grouped_ok tr && causal_ok tr && chunks_ok tr && eofc_ok tr &&
   (if notify_identity g then fresh_ok tr else true) &&
   negb (existsb (fun e => match e with EPanic => true | _ => false end) tr).
 
@@ -630,8 +646,17 @@ Fixpoint replay (g : cfg) (s : state) (nnew : nat) (tr : list ev) : bool :=
           | Some s' => ev_matches e s' && replay g s' nnew r
           | None => false
           end
+      | EIdle c =>
+          match r with
+          | EEof c' :: r' =>
+              match exec g s (ConnIdle c) with
+              | Some s' => Nat.eqb c c' && ev_matches (EEof c') s' && replay g (loop_quiesce g 6 s') nnew r'
+              | None => false
+              end
+          | _ => false
+          end
       | EEof c =>
-          match (match exec g s (ConnEof c) with Some s' => Some s' | None => exec g s (ConnIdle c) end) with
+          match exec g s (ConnEof c) with
           | Some s' => ev_matches e s' && replay g (loop_quiesce g 6 s') nnew r
           | None => false
           end
